@@ -142,6 +142,8 @@ def cases(tier, seed):
             kw.append(["with_null", fn(op, cs[0], lits_for(fams[0], rng, 1)[0], lit(None))])
             kw.append(["equiv", fn("or", fn("eq", cs[0], cs[1]), fn("eq", cs[0], lv[0]))])
             kw.append(["equiv_in", fn(op, cs[0], cs[1], lv[0])])
+            kw.append(["single", fn(op, cs[0], lv[0])])
+            kw.append(["no_values", fn(op, cs[0])])  # an empty disjunction: false for every row
         if op in ("coalesce", "fill_null"):
             kw.append(["rev", fn(op, *reversed(cs))])
         if op in ("hmax", "hmin") and fams[0] in ("int", "float"):
